@@ -247,6 +247,30 @@ def run_config_reuse(out, drv, rng, tab, ctxs, cfg, fe):
                            "second_only": [json.loads(k) for k in k2 if k not in k1][:3]})
     except Exception as e:  # noqa: BLE001
         out.violation(f"{WHAT}: {fe} stream raised {type(e).__name__}: {e} when run a second time", {"case": jsonable(case)})
+    # the same STREAM object that first ran ANOTHER configuration (the same windows, only the first configured stream): nothing
+    # of that run may show in the next one
+    try:
+        import copy as _copy
+        sids = []
+        for c in cfg.get("contexts", []):
+            for sid in c.get("streams", {}):
+                if sid not in sids:
+                    sids.append(sid)
+        if len(sids) >= 2:
+            small = _copy.deepcopy(cfg)
+            for c in small["contexts"]:
+                c["streams"] = {k: v for k, v in c["streams"].items() if k == sids[0]}
+            small["contexts"] = [c for c in small["contexts"] if c["streams"]]
+            fresh = sorted(key(sc.canon_ctx_result(r)) for r in sc.run_frontend(fe, tab, cfg))
+            reused = sorted(key(sc.canon_ctx_result(r)) for r in sc.run_frontend(fe, tab, cfg, warmup=small))
+            if fresh != reused:
+                out.violation(f"{WHAT}: a {fe} stream object that first ran another configuration (only stream {sids[0]!r}, same windows) "
+                              f"gives different results for this one than a fresh stream object",
+                              {"case": jsonable(dict(case, table=tab)), "fresh_only": [json.loads(k) for k in fresh if k not in reused][:3],
+                               "reused_only": [json.loads(k) for k in reused if k not in fresh][:3]})
+    except Exception as e:  # noqa: BLE001
+        out.violation(f"{WHAT}: {fe} stream raised {type(e).__name__}: {e} when its object was re-used for a second configuration",
+                      {"case": jsonable(case)})
     out.record(case, True, [f"fe:{fe}", "config-reuse", f"dropped:{len(dropped)}"])
     exp_keys, obs_keys = sorted(key(r) for r in exp), sorted(key(r) for r in obs)
     if exp_keys != obs_keys:
